@@ -269,7 +269,7 @@ def helper_purity(ctx, prog, rule_id: str):
         bad = []
         for st in ast.walk(fn.node):
             pass
-        order = sorted((n for n in ast.walk(fn.node) if isinstance(n, (ast.Assign, ast.AugAssign, ast.Expr, ast.Return)) and prog.function_of(n) is fn), key=lambda n: (n.lineno, n.col_offset))
+        order = sorted((n for n in ast.walk(fn.node) if isinstance(n, (ast.Assign, ast.AugAssign, ast.Expr, ast.Return)) and prog.function_of(n) is fn), key=lambda n: getattr(n, "_ord", n.lineno * 1000 + n.col_offset))
         for st in order:
             for c in ast.walk(st):
                 if isinstance(c, ast.Call):
@@ -314,3 +314,12 @@ def leaf_definitions(prog, fn, name: str, at, depth: int = 0) -> List[ast.AST]:
         else:
             out.append(d)
     return out
+
+
+def pos(node) -> int:
+    """Textual position of a node in the analysed (normalised) tree; use this,
+    not lineno, to decide which of two statements comes first."""
+    o = getattr(node, "_ord", None)
+    if o is None:
+        return getattr(node, "lineno", 0) * 1000 + getattr(node, "col_offset", 0)
+    return o
